@@ -59,9 +59,21 @@ def main():
         rc0, o0 = sh("/venv/bin/python demo.py", cwd=wt, timeout=600)
         confirmed["demo_without_patch_exit"] = rc0
         rc, o = sh("git apply %s" % os.path.abspath(patch), cwd=wt)
+        if rc != 0:
+            # the patch was written against an earlier HEAD (before the hook commit): three-way apply, then
+            # regenerate it against the current HEAD
+            rc, o = sh("git apply --3way %s" % os.path.abspath(patch), cwd=wt)
+            confirmed["applied_3way"] = rc == 0
+            sh("git reset -q", cwd=wt)
         confirmed["patch_applies"] = rc == 0
         if rc != 0:
             print("patch does not apply:\n" + o)
+        else:
+            rc2, newp = sh("git diff -- pyspike", cwd=wt)
+            regen = os.path.join(tempfile.gettempdir(), "pyspike_seed_%s.diff" % a.seed_id)
+            with open(regen, "w") as f:
+                f.write(newp)
+            patch = regen
         rc, o = sh("/venv/bin/python -m pytest -q -p no:cacheprovider --timeout=900 2>&1 | tail -3", cwd=wt, timeout=1800)
         m = re.search(r"(\d+) passed", o)
         f = re.search(r"(\d+) failed", o)
